@@ -7,21 +7,21 @@ ROOT = os.path.dirname(os.path.dirname(os.path.abspath(__file__)))
 # id -> (category, technique, text, note, design_ref)
 CHECKS = {
  "C10": ("exploration", "Go race detector (-race build, reports parsed and de-duplicated by innermost library frame pair) over concurrent storms; transport-level overlapping-Write detector and broker-side framer",
-         "BaseClient and ReconnectClient storms (8-32 / 6-17 goroutines of every call kind, inbound traffic acknowledged by the reader goroutine, concurrent Close, keep-alive, cuts every few packets) plus the C07/C15/C20 workloads, all under the race detector, repeated with different seeds; any report not listed in known_findings.json is a violation; the transport flags overlapping Write calls and unframeable streams.",
+         "BaseClient and ReconnectClient storms (8-32 / 6-17 goroutines of every call kind, inbound traffic acknowledged by the reader goroutine, concurrent Close, keep-alive, cuts every few packets) plus the C07/C15/C20 workloads, all under the race detector, plus retry-client scenarios (fuzz, storms, client switches) and payloads up to 70 KiB, repeated with different seeds; any report not listed in known_findings.json is a violation; the transport flags overlapping Write calls and unframeable streams.",
          "The race detector only sees code the workload reaches and reports on happens-before, not on the interleaving that happened; schedules are sampled. Evidence lists the pairs of call kinds observed overlapping.", "5/C10"),
 
  "C11": ("fault_enumeration", "full enumeration of (call kind, step, cause) with a stalling scripted peer; return/ctx-error/Done/goroutine-dump oracle with certified-stuck certificate",
-         "Every blocking call kind at every step of its exchange (incl. both QoS 2 phases, the Retry handle of every interrupted request kind on a fresh client, and ReconnectClient.Connect while dialling / waiting CONNACK / backing off) crossed with every cause (pre-cancelled, cancel, deadline, local Close, peer close, malformed packet), alone and with three other calls blocked at once, and after a burst of unsolicited acknowledgements; calls of every kind cancelled while waiting and then answered late (every answer twice) before the connection-ending cause; a hand-driven RetryClient whose client is replaced make-before-break while a request completes on the replaced connection, then Connect/Publish/Ping/Disconnect under contexts; state callbacks that call Err()/Done(); a peer that is gone before CONNECT is written.",
+         "Every blocking call kind at every step of its exchange (incl. both QoS 2 phases, the Retry handle of every interrupted request kind on a fresh client, and ReconnectClient.Connect while dialling / waiting CONNACK / backing off) crossed with every cause (pre-cancelled, cancel, deadline, local Close, peer close, malformed packet), alone and with three other calls blocked at once, and after a burst of unsolicited acknowledgements; calls of every kind cancelled while waiting and then answered late (every answer twice) before the connection-ending cause; a hand-driven RetryClient whose client is replaced make-before-break while a request completes on the replaced connection, then Connect/Publish/Ping/Disconnect under contexts; state callbacks that call Err()/Done(); a peer that is gone before CONNECT is written; Disconnect while the handler is busy / from inside the handler; the retrying client's queueing calls during a pending handshake.",
          "Trusted: goroutine dump filtered to library reader frames (baseline-subtracted); watchdog expiry becomes a verdict only with the quiescence certificate.", "5/C11"),
  "C18": ("fault_enumeration", "dropped-acknowledgement sweep (single and on the retransmission path) with OnError/close/redial/retransmission monitor and certified-stuck certificate",
-         "The broker model silently drops the acknowledgement of every request packet (all ack kinds incl. PUBREC/PUBCOMP) on first transmissions and, in pairs, on the connection that retransmits; per fired drop: RequestTimeoutError through OnError, library Close, new connection, retransmission; ledger discharged; certified-stuck = waits forever. Plans alternate the error style the transport returns after the library's own Close (net.Pipe, TCP, in-memory) and a late-returning Close; requests swallowed by a stalled link; a dropped SUBACK of a re-subscription; OnError callbacks that publish through the client.",
+         "The broker model silently drops the acknowledgement of every request packet (all ack kinds incl. PUBREC/PUBCOMP) on first transmissions and, in pairs, on the connection that retransmits; per fired drop: RequestTimeoutError through OnError, library Close, new connection, retransmission; ledger discharged; certified-stuck = waits forever. Plans alternate the error style the transport returns after the library's own Close (net.Pipe, TCP, in-memory) and a late-returning Close; requests swallowed by a stalled link; a dropped SUBACK of a re-subscription; OnError callbacks that publish through the client; the broker stops reading while an acknowledgement is awaited.",
          "Trusted: certified-stuck certificate; no bound on close time asserted.", "5/C18"),
 
  "C13": ("fault_enumeration", "scripted-Client classification table for KeepAlive; system monitor of PINGREQ times, dropped pings, library Close and redial on the real ReconnectClient",
-         "Seeded scripts of ping outcomes (prompt, immediate failure, never answered, parent cancelled before/during a ping) against KeepAlive with logical classification (timeouts that cannot have expired), and system runs in which the broker model goes silent at a chosen point or never; only a silent peer may be declared dead, a silent peer must be detected with ErrPingTimeout and followed by a new connection; scripts with responses that take 80 % of the timeout check that every ping gets a deadline of at least half the configured timeout (read from the context it is given); surplus PINGRESPs before the silence (sequential-ping rule); a broker that answers late but in time while a short ResponseTimeout is configured.",
+         "Seeded scripts of ping outcomes (prompt, immediate failure, never answered, parent cancelled before/during a ping) against KeepAlive with logical classification (timeouts that cannot have expired), and system runs in which the broker model goes silent at a chosen point or never; only a silent peer may be declared dead, a silent peer must be detected with ErrPingTimeout and followed by a new connection; scripts with responses that take 80 % of the timeout check that every ping gets a deadline of at least half the configured timeout (read from the context it is given); surplus PINGRESPs before the silence (sequential-ping rule); a broker that answers late but in time while a short ResponseTimeout is configured; a connection up for four intervals must show a PINGREQ.",
          "Trusted: scripted Ping honours its context like the real one; lower bounds on time only.", "5/C13"),
  "C16": ("fault_enumeration", "per-connection automaton over the ConnState callback log plus sampled Err()/Done() while healthy, after the end and after graceful Disconnect",
-         "Every ending (peer close, local Close, malformed packet, refused CONNACK, Disconnect) alone, in sequence and racing on a BaseClient; reconnecting client with keep-alive going through several connections, the re-established connection sampled 3 keep-alive intervals after CONNACK and again after a graceful Disconnect; transports whose Close returns late, so that a secondary read error can overtake the real cause; peer close right behind an inbound PUBLISH (the reader's own write fails); peer gone before CONNECT is written.",
+         "Every ending (peer close, local Close, malformed packet, refused CONNACK, Disconnect) alone, in sequence and racing on a BaseClient; reconnecting client with keep-alive going through several connections, the re-established connection sampled 3 keep-alive intervals after CONNACK and again after a graceful Disconnect; transports whose Close returns late, so that a secondary read error can overtake the real cause; peer close right behind an inbound PUBLISH (the reader's own write fails); peer gone before CONNECT is written; reserved CONNACK return codes.",
          "Trusted: callback log recorded under the trace mutex; racing causes are only held to order-independent rules.", "5/C16"),
 
  "C09": ("fault_enumeration", "online/offline lifecycle monitor over Dialer and transport events: open-transport count at dial, CONNECT-first, back-off lower bounds, no dial after Disconnect; Disconnect/cancel steered into every loop phase",
@@ -38,38 +38,38 @@ CHECKS = {
          "Single-submitter workloads; all single cuts, exhaustive pairs on short workloads, sampled pairs/triples, random plans, fuzz mode; R1/R2/R3 of DESIGN.md checked on every connection of every run.",
          "Trusted: tags identify messages; default queued mode.", "5/C03"),
  "C08": ("fault_enumeration", "broker subscription table at quiescence vs fold of application calls; explained-SUBSCRIBE rule per connection",
-         "Canonical and seeded random Subscribe/Unsubscribe histories with repeated filters, changed QoS, duplicates inside a call, absent filters, calls before Connect and during outages; session kept/lost x AlwaysResubscribe on/off x three client kinds; all single cuts, sampled pairs/triples, random plans, fuzz mode, requests swallowed by a stalled link (dropReq).",
+         "Canonical and seeded random Subscribe/Unsubscribe histories with repeated filters, changed QoS, duplicates inside a call, absent filters, calls before Connect and during outages; session kept/lost x AlwaysResubscribe on/off x three client kinds; all single cuts, sampled pairs/triples, random plans, fuzz mode, requests swallowed by a stalled link (dropReq); requests made before the first connection; table judged in stuck/live-locked runs too.",
          "Trusted: broker model grants requested QoS; fold semantics = MQTT subscription replacement.", "5/C08"),
  "C12": ("fault_enumeration", "per-message attempt-history monitor (id/content stability, DUP 0 then 1, PUBREL rules) over all write attempts incl. locally failed ones",
          "All PUBLISH/PUBREL attempts of every message across all connections in single/pair/random cut sweeps, incl. caller-set ids and preset Dup/retain, make-before-break client switches and the fuzz mode; also the ErrorWithRetry handle replayed on a fresh client (C19 API cases).",
          "Trusted: DUP defined on attempts; failed local writes are recorded by the transport.", "5/C12"),
  "C17": ("fault_enumeration", "inbound hand-over monitor: consumed inbound PUBLISH vs handler invocations per connection, with handler replacement history",
-         "Broker model pushes tagged messages right behind every CONNACK, mid-connection and before cuts while Handle is called before Connect, after Connect, replaced or set to nil, between an inbound QoS 2 PUBLISH and its withheld PUBREL, and continuously from a storm goroutine (stats lock kept read-held) across reconnects; single cuts, sampled pairs, random plans, fuzz mode, repetitions; slowed Active callback; one-shot handlers that install their successor from inside the callback; make-before-break client switches with a message arriving on the replaced connection. A Handle call that never returns in a certified-stuck run is a violation. The last packet consumed on a connection is judged too; the broker model can redeliver unacknowledged inbound messages (same id, DUP=1).",
+         "Broker model pushes tagged messages right behind every CONNACK, mid-connection and before cuts while Handle is called before Connect, after Connect, replaced or set to nil, between an inbound QoS 2 PUBLISH and its withheld PUBREL, and continuously from a storm goroutine (stats lock kept read-held) across reconnects; single cuts, sampled pairs, random plans, fuzz mode, repetitions; slowed Active callback; one-shot handlers that install their successor from inside the callback; make-before-break client switches with a message arriving on the replaced connection. A Handle call that never returns in a certified-stuck run is a violation. The last packet consumed on a connection is judged too; the broker model can redeliver unacknowledged inbound messages (same id, DUP=1); Dialers whose clients already carry a handler.",
          "Trusted: consumed-offset bookkeeping of the transport; handler entries are recorded when entered and the analysis runs after tear-down.", "5/C17"),
 
  "C04": ("exploration", "reference receiver automaton over a single-timeline trace of a real BaseClient (exhaustive bounded + seeded inbound sequences)",
-         "Every inbound sequence over a 9-symbol alphabet up to length 4 (quick) / 6 (thorough), plus seeded random sequences, is played to the real client on an in-memory transport; the monitor compares the timeline of handler enter/exit and PUBACK/PUBREC/PUBCOMP writes with a reference receiver automaton. Exhaustive within the bound, sampled beyond; the hand-over rule is also run through the reconnecting / retrying clients.",
+         "Every inbound sequence over a 9-symbol alphabet up to length 4 (quick) / 6 (thorough), plus seeded random sequences, is played to the real client on an in-memory transport; the monitor compares the timeline of handler enter/exit and PUBACK/PUBREC/PUBCOMP writes with a reference receiver automaton. Exhaustive within the bound, sampled beyond; the hand-over rule is also run through the reconnecting / retrying clients; the handler calls back into the client; multi-byte topics.",
          "Trusted: the reference automaton (written from the statement), mqttref encoder, the Ping barrier argument (serve is sequential).", "5/C04"),
  "C05": ("exploration", "independent strict decoder/encoder round trip on bytes written to the transport; exhaustive remaining-length codec comparison",
          "Every packet the client writes in the generated workloads is decoded by an independent strict MQTT 3.1.1 decoder and compared field by field with the request, also in faulty runs of the retrying clients (retransmissions, re-subscriptions, a broker granting less than requested); inbound QoS 2 with a packet in between and delivered messages re-read after later packets; the length codec is compared with an independent encoder for every n in 0..268435455 (thorough) or all boundaries +-300 and 2^20 samples (quick).",
          "Trusted: mqttref (written from the OASIS text). Domain: requests MQTT 3.1.1 can express.", "5/C05"),
  "C06": ("exploration", "hostile byte streams fed to a real BaseClient in journalled child processes; crash attribution, read-size monitor, close-before-next-read oracle",
-         "Structural enumeration of malformed packets (types x flags x short bodies, over-long/endless length fields, truncations, PUBLISH specials) and seeded random/mutated streams, each between a well-formed prefix and a canary, and also in place of the CONNACK while Connect waits; hostile acknowledgements that match requests in flight (SUBACK code vectors of any length and value, trailing bytes, reserved flags); failure/reserved SUBACK codes followed by session-less reconnects of the retrying clients; listed malformed packets right behind an accepting CONNACK (error must be observable); random bodies handed to every parser; the oracle is logical (library Close before the reader parks on exhausted input; Done/Err/Closed consistent; allocation bound from Read sizes).",
+         "Structural enumeration of malformed packets (types x flags x short bodies, over-long/endless length fields, truncations, PUBLISH specials) and seeded random/mutated streams, each between a well-formed prefix and a canary, and also in place of the CONNACK while Connect waits; hostile acknowledgements that match requests in flight (SUBACK code vectors of any length and value, trailing bytes, reserved flags); failure/reserved SUBACK codes followed by session-less reconnects of the retrying clients; listed malformed packets right behind an accepting CONNACK (error must be observable); half of the streams through a ServeMux, zero-length topics, surplus PINGRESPs; a reader that stops reading is a violation; random bodies handed to every parser; the oracle is logical (library Close before the reader parks on exhausted input; Done/Err/Closed consistent; allocation bound from Read sizes).",
          "Trusted: mqttref classification of which blobs are in the property's list; leniencies outside the list only need to be crash-free.", "5/C06"),
  "C07": ("exploration", "scripted manual-mode broker with foreign-ack injection and Ping barriers; call/return vs ack-send order on one timeline",
-         "Seeded scripts with 1-24 concurrent callers; foreign/unsolicited/duplicated acknowledgements first (proved processed by a Ping barrier), then own acknowledgements in a seeded permutation; a call may return only after the send event of its own acknowledgement; SUBACK vectors and wrong-length vectors checked; calls cancelled while waiting whose acknowledgements arrive late among the later calls; calls still waiting when the application disconnects must not return success.",
+         "Seeded scripts with 1-24 concurrent callers; foreign/unsolicited/duplicated acknowledgements first (proved processed by a Ping barrier), then own acknowledgements in a seeded permutation; a call may return only after the send event of its own acknowledgement; SUBACK vectors and wrong-length vectors checked; calls cancelled while waiting whose acknowledgements arrive late among the later calls; calls still waiting when the application disconnects must not return success; QoS 2 calls cancelled after PUBREC; a QoS 2 publish resumed through its retry handle next to fresh calls.",
          "Trusted: timeline order under the transport mutex; the barrier argument.", "5/C07"),
  "C14": ("exploration", "black-box comparison with an independent MQTT 4.7 matcher/validator, exhaustive over a bounded alphabet plus random",
-         "All filters over a 10-symbol level alphabet up to depth 4 (quick) / 5 (thorough) for validity, all valid filters x all topics over {\"\",a,b,c} up to depth 4/5 for matching, random UTF-8 beyond, and random interleaved Handle/Serve sequences for dispatch order with handlers that rewrite the topic they are given. Exhaustive within the bound.",
+         "All filters over a 10-symbol level alphabet up to depth 4 (quick) / 5 (thorough) for validity, all valid filters x all topics over {\"\",a,b,c} up to depth 4/5 for matching, random UTF-8 beyond, and random interleaved Handle/Serve sequences for dispatch order with handlers that rewrite the topic they are given; '$' below the first level. Exhaustive within the bound.",
          "Trusted: the reference matcher (level-wise definition from section 4.7).", "5/C14"),
  "C15": ("exploration", "online id-uniqueness monitor at the scripted broker under the transport mutex; counter positioned at wrap-around; concurrent caller storms",
-         "Concurrent callers with withheld acknowledgements, counter pre-positioned around 16-bit and 32-bit wrap-around, storms of 16-64 callers released at the wrap; ids must be non-zero and distinct from all unacknowledged requests; caller-set ids unchanged (also through RetryClient's queue, on the retransmission over a new client, and when the caller set DUP/retain as well); a retransmission from the previous connection must not meet a fresh request's identifier (3 of 4 trials). The full-cycle laggard history is a recorded known finding.",
+         "Concurrent callers with withheld acknowledgements, counter pre-positioned around 16-bit and 32-bit wrap-around, storms of 16-64 callers released at the wrap; ids must be non-zero and distinct from all unacknowledged requests; caller-set ids unchanged (also through RetryClient's queue, on the retransmission over a new client, and when the caller set DUP/retain as well); a retransmission from the previous connection must not meet a fresh request's identifier (3 of 4 trials); identifiers of requests re-issued through retry handles on the same and on the next connection. The full-cycle laggard history is a recorded known finding.",
          "Trusted: the monitor's outstanding-set bookkeeping. Sampled schedules.", "5/C15"),
  "C19": ("exploration", "independent error-chain walker vs errors.Is/As on generated chains; API-level cause and retry-handle replay on the wire",
-         "Seeded random chains from all sentinels and wrappers (depth<=8) checked against an independent chain walker for every sentinel and node as target; interrupted requests on a real client must expose the injected cause and a retry handle that re-issues the same request on a fresh client (decoded on the wire); with RetryClient.ResponseTimeout and acknowledgements dropped on first transmissions and retransmissions, every OnError value stemming from an expired deadline must satisfy errors.As(*RequestTimeoutError).",
+         "Seeded random chains from all sentinels and wrappers (depth<=8) checked against an independent chain walker for every sentinel and node as target; interrupted requests on a real client must expose the injected cause and a retry handle that re-issues the same request on a fresh client (decoded on the wire); with RetryClient.ResponseTimeout and acknowledgements dropped on first transmissions and retransmissions, every OnError value stemming from an expired deadline must satisfy errors.As(*RequestTimeoutError); connection-ending causes stay inspectable when the transport's Close fails too.",
          "Trusted: the chain walker. Domain: no pointer-to-non-struct error values; transports whose Write returns bare io.EOF excluded.", "5/C19"),
  "C20": ("exploration", "snapshot-equality monitor over mutating handlers behind ServeMux/ServeAsync with parked asynchronous handlers",
-         "Seeded rounds: every handler snapshots what it received and then mutates everything reachable; asynchronous handlers are parked until the dispatcher returned; snapshots must equal the caller's original, what a handler kept after its own changes must not be altered by siblings (zero-length payloads with spare capacity included) and the caller's message must be unchanged; fan-out of one pointer to ServeAsync handlers and in-place mutating siblings.",
+         "Seeded rounds: every handler snapshots what it received and then mutates everything reachable; asynchronous handlers are parked until the dispatcher returned; snapshots must equal the caller's original, what a handler kept after its own changes must not be altered by siblings (zero-length payloads with spare capacity included) and the caller's message must be unchanged; fan-out of one pointer to ServeAsync handlers and in-place mutating siblings; messages kept by asynchronous handlers re-read after later dispatches.",
          "Trusted: snapshot comparison. Sampled schedules for the asynchronous part.", "5/C20"),
 }
 
